@@ -130,6 +130,7 @@ type outcome struct {
 	loaded   bool   // the JSON file was loaded
 	nflags   int    // flag occurrences assigned
 	vals     []any  // expected field values of a table-built struct (layout.go); nil for Cfg
+	set      []bool // Cfg only: which flags (fB ...) the vector assigns
 }
 
 // files the model knows about
@@ -144,6 +145,7 @@ func refParse(argv []string, fl files) (o outcome) {
 		return o
 	}
 
+	o.set = append([]bool(nil), set[:]...)
 	// values: command line ?: JSON file ?: tag default
 	o.cfg = defaults()
 	if set[fConfig] && text[fConfig] != "" {
